@@ -197,6 +197,40 @@ def loadFile (spec : ExtSpec) : List Doc → List Entry → FileResult
         if hasKey k reg then .duplicate k
         else loadFile spec ds (reg ++ [{ key := k, ext := e, located := plainScalar k.2 }])
 
+/-! ## where `@extern "<path>"` finds the file (`Parser.visitFilepath`)
+
+The dependent program names the exported file by a path literal; the parser tries, in this order, the literal as given
+(absolute, or relative to the working directory), the literal relative to the directory of the IDL file that contains the
+directive, and the literal relative to each configured include directory in order; the first candidate that exists and is not
+a directory is loaded. A workspace is described by what stands at each of these candidates: nothing, a directory, or a file
+(`α`: whatever identifies the file — its path, its documents). Files of the same relative name further down the search
+order (another export of the same library in an include directory, …) are *decoys*: they never win. -/
+
+inductive Slot (α : Type) where
+  | absent
+  | dir
+  | file (a : α)
+deriving DecidableEq, Repr
+
+def Slot.isFile {α : Type} : Slot α → Bool
+  | .file _ => true
+  | _ => false
+
+/-- the candidates of one `@extern` literal, in search order -/
+def searchOrder {α : Type} (asGiven nextToIdl : Slot α) (includeDirs : List (Slot α)) : List (Slot α) :=
+  asGiven :: nextToIdl :: includeDirs
+
+/-- first candidate that `exists() and not is_dir()` -/
+def locate {α : Type} : List (Slot α) → Option α
+  | [] => none
+  | .file a :: _ => some a
+  | _ :: rest => locate rest
+
+/-- the registry a dependent program starts from: the documents of the located file through `load_external`;
+    `none`: FileNotFoundException at the directive -/
+def externRegistry (spec : ExtSpec) (cands : List (Slot (List Doc))) : Option FileResult :=
+  (locate cands).map (fun docs => loadFile spec docs [])
+
 /-! ## tables regenerated from the live source on every run, and the checks over them -/
 
 /-- attributes of a type that dependants read through `….type_def` (templates and generator Python), with the context
